@@ -507,3 +507,12 @@ MUTANTS = [
 # SESSION7 additions to the claim (clauses added in DESIGN section 12)
 CLAIM['technique'] += '; read-hashed typestate (every count read from a chunk reaches the chunk hash before the verdict); semantic count-up/count-down chunk loop (linear values, Fourier-Motzkin); static inventory restricted to the scan'
 CLAIM['text'] += ' C09-h: no path of the scan classifies a chunk whose bytes were read but not hashed. C09-i: the scan keeps nothing in static storage.'
+
+MUTANTS += [
+    {'id': 'm09h', 'desc': 'blocks that start with a zero byte are not hashed (after seeded c09r7)', 'file': 'src/lib/hash/hash.c',
+     'old': """            if(rb > 0) {
+                if(!hash_update(zck, &(zck->check_chunk_hash), buf, rb))
+                    return 0;""", 'new': """            if(rb > 0 && buf[0] != 0) {
+                if(!hash_update(zck, &(zck->check_chunk_hash), buf, rb))
+                    return 0;""", 'expect': 'R6.read-hashed validate_checksums'},
+]
